@@ -74,25 +74,37 @@ Theorem c04_min_no_panic : forall wclass regex ext args c,
 Proof. exact min_no_panic. Qed.
 Print Assumptions c04_min_no_panic.
 
-Theorem c04_format_number_no_panic : forall wclass regex ext args c,
+(* ARGUMENT HANDLING ONLY: the model replaces the body's computation (FormatCustom / dates.NewDate / NewTimeOfDay /
+   time.Add, AddDate, ToXDateTime's parser) by a constant of the right kind; what is proved is that the wrapper,
+   the conversions and the guards before it never panic *)
+Theorem c04_format_number_args_no_panic : forall wclass regex ext args c,
   call_function wclass regex ext FFormatNumber args <> Panic c.
 Proof. exact format_number_no_panic. Qed.
-Print Assumptions c04_format_number_no_panic.
+Print Assumptions c04_format_number_args_no_panic.
 
-Theorem c04_date_from_parts_no_panic : forall wclass regex ext args c,
+(* ARGUMENT HANDLING ONLY: the model replaces the body's computation (FormatCustom / dates.NewDate / NewTimeOfDay /
+   time.Add, AddDate, ToXDateTime's parser) by a constant of the right kind; what is proved is that the wrapper,
+   the conversions and the guards before it never panic *)
+Theorem c04_date_from_parts_args_no_panic : forall wclass regex ext args c,
   call_function wclass regex ext FDateFromParts args <> Panic c.
 Proof. exact date_from_parts_no_panic. Qed.
-Print Assumptions c04_date_from_parts_no_panic.
+Print Assumptions c04_date_from_parts_args_no_panic.
 
-Theorem c04_time_from_parts_no_panic : forall wclass regex ext args c,
+(* ARGUMENT HANDLING ONLY: the model replaces the body's computation (FormatCustom / dates.NewDate / NewTimeOfDay /
+   time.Add, AddDate, ToXDateTime's parser) by a constant of the right kind; what is proved is that the wrapper,
+   the conversions and the guards before it never panic *)
+Theorem c04_time_from_parts_args_no_panic : forall wclass regex ext args c,
   call_function wclass regex ext FTimeFromParts args <> Panic c.
 Proof. exact time_from_parts_no_panic. Qed.
-Print Assumptions c04_time_from_parts_no_panic.
+Print Assumptions c04_time_from_parts_args_no_panic.
 
-Theorem c04_datetime_add_no_panic : forall wclass regex ext args c,
+(* ARGUMENT HANDLING ONLY: the model replaces the body's computation (FormatCustom / dates.NewDate / NewTimeOfDay /
+   time.Add, AddDate, ToXDateTime's parser) by a constant of the right kind; what is proved is that the wrapper,
+   the conversions and the guards before it never panic *)
+Theorem c04_datetime_add_args_no_panic : forall wclass regex ext args c,
   call_function wclass regex ext FDateTimeAdd args <> Panic c.
 Proof. exact datetime_add_no_panic. Qed.
-Print Assumptions c04_datetime_add_no_panic.
+Print Assumptions c04_datetime_add_args_no_panic.
 
 Theorem c04_array_no_panic : forall wclass regex ext args c,
   call_function wclass regex ext FArray args <> Panic c.
@@ -256,7 +268,10 @@ Print Assumptions c04_arity_rejected_is_error.
 
 (* ---- function values (foreach) and the tree evaluator, by induction over the expression: whatever the
    context and the expression, the only panic left is the decimal exponent overflow.
-   PARTIAL: (1) hypothesis ext_well_behaved on the functions outside the modelled set: they return, or panic with
+   This is a statement about PROPAGATION: no node of the tree adds a panic to what the called functions can do.
+   PARTIAL: (0) the context is a finite static object: lazily built objects/arrays (run and contact context, JSON)
+   are Go closures outside the model; (1) hypothesis ext_well_behaved on the functions outside the modelled set
+   and frac_pow_well_behaved on the series part of non-integral powers: they return, or panic with
    the exponent class only (they are covered by the sweep only; satisfiable: ext_hypothesis_satisfiable);
    (2) anonymous functions are outside the expression type; (3) the exponent class itself ---- *)
 
@@ -267,7 +282,7 @@ Proof. exact call_function_exponent_only. Qed.
 Print Assumptions c04_call_panics_only_on_exponent_overflow_partial.
 
 Theorem c04_eval_panics_only_on_exponent_overflow_partial : forall wclass regex ext frac_pow lookup_function,
-  ext_well_behaved ext ->
+  ext_well_behaved ext -> frac_pow_well_behaved frac_pow ->
   forall ctx e, eval wclass regex ext frac_pow lookup_function ctx e <> NoFuel /\
                 forall c, eval wclass regex ext frac_pow lookup_function ctx e = Panic c -> c = PExponent.
 Proof. exact eval_statement. Qed.
@@ -285,11 +300,27 @@ Theorem c04_call_never_out_of_fuel : forall wclass regex ext,
 Proof. exact call_function_fuel. Qed.
 Print Assumptions c04_call_never_out_of_fuel.
 
-(* every operator other than / , the ^ operator included: no panic of any class, for all operands (Multiply and
-   Exponent check the resulting exponent; the value of a non-integral power is a universally quantified function) *)
-Theorem c04_operators_no_panic : forall frac_pow op x y c, op <> ODiv -> eval_binop frac_pow op x y <> Panic c.
+(* every operator other than / and ^ : no panic of any class, for all operands (Multiply checks the exponent) *)
+Theorem c04_operators_no_panic : forall frac_pow op x y c,
+  op <> ODiv -> op <> OPow -> eval_binop frac_pow op x y <> Panic c.
 Proof. exact binop_no_panic_statement. Qed.
 Print Assumptions c04_operators_no_panic.
+
+(* ^ with a WHOLE power (after canonical form): no panic of any class for any base — the three guards of
+   operators.Exponent keep PowBigInt's multiplications and the DivRound of a negative power inside int32 *)
+Theorem c04_power_integral_no_panic : forall frac_pow x y n2 c,
+  to_number y = Ok n2 -> dec_is_integer (dec_canonical n2) = true -> eval_binop frac_pow OPow x y <> Panic c.
+Proof. exact power_integral_no_panic. Qed.
+Print Assumptions c04_power_integral_no_panic.
+
+(* ^ with ANY power. PARTIAL: for a non-integral power the whole-part computation is modelled and adds no panic;
+   the series part of the library (Ln, ExpTaylor, final Mul) is NOT modelled and is assumed to panic at most with
+   the exponent class (frac_pow_well_behaved; satisfiable: frac_pow_hypothesis_satisfiable); it is exercised by the
+   sweep only *)
+Theorem c04_power_panics_only_on_exponent_overflow_partial : forall frac_pow x y c,
+  frac_pow_well_behaved frac_pow -> eval_binop frac_pow OPow x y = Panic c -> c = PExponent.
+Proof. exact power_exponent_only. Qed.
+Print Assumptions c04_power_panics_only_on_exponent_overflow_partial.
 
 (* a product whose decimal exponent would leave +-100000 is an error value
    (`@(0.1 ^ 100000 * 0.1 ^ 100000)`; before the repair `@(0.1 ^ 2000000000 * 0.1 ^ 2000000000)` panicked) *)
